@@ -3,8 +3,8 @@ package main
 import (
 	"context"
 	"fmt"
-	"os"
 	"github.com/brimdata/super/pkg/verifhook"
+	"os"
 
 	"verif/internal/gen"
 	"verif/internal/lk"
